@@ -184,9 +184,11 @@ def fold_icmp(pred, a, b):
 
 
 class Path:
-    def __init__(self, fn, module):
+    def __init__(self, fn, module, call_effects=None):
         self.fn = fn
         self.module = module
+        self.call_effects = call_effects or {}
+        self.cond_pos = []      # number of events recorded when each cond was taken
         self.env = {}
         self.mem = {}           # (root, off, var) -> (value expr, size)
         self.epoch = 0
@@ -203,7 +205,8 @@ class Path:
         self.truncated = False
 
     def clone(self):
-        p = Path(self.fn, self.module)
+        p = Path(self.fn, self.module, self.call_effects)
+        p.cond_pos = list(self.cond_pos)
         p.env = dict(self.env)
         p.mem = dict(self.mem)
         p.epoch = self.epoch
@@ -432,9 +435,22 @@ class Path:
                                           "llvm.cttz", "llvm.bswap", "llvm.assume")):
                     self.events.append(Event("call", i, callee=callee, args=args, res=res))
             else:
-                for a in args:
-                    self.note_escape(a)
-                self._invalidate_call()
+                eff = self.call_effects.get(callee) if callee else None
+                if eff is None:
+                    for a in args:
+                        self.note_escape(a)
+                    self._invalidate_call()
+                else:
+                    # eff: list of (arg index, size or None) regions the callee may write; nothing else
+                    for ai, sz in eff:
+                        if ai < len(args):
+                            if isinstance(sz, tuple) and sz[0] == "arg":
+                                sa_ = args[sz[1]] if sz[1] < len(args) else None
+                                sz = sa_[2] if sa_ is not None and sa_[0] == "c" else None
+                            self.store(args[ai], ("callwr", callee, self.seq), sz)
+                            if sz is not None:
+                                # content is unknown: forget the just-recorded value
+                                self.mem.pop(self._mkey(args[ai]), None)
                 self.seq += 1
                 name = callee if callee else ("*", self.ev(i.callee_val))
                 res = ("call", name, tuple(args), self.seq)
@@ -451,7 +467,7 @@ class Path:
         return None
 
 
-def enumerate_paths(fn, module, loop_bound=1, max_paths=MAX_PATHS, stop_at_calls=()):
+def enumerate_paths(fn, module, loop_bound=1, max_paths=MAX_PATHS, call_effects=None):
     """All paths from entry to a return/unreachable, each back edge at most loop_bound times.
 
     Infeasible paths are pruned only when a branch condition folds to a constant.
@@ -462,7 +478,7 @@ def enumerate_paths(fn, module, loop_bound=1, max_paths=MAX_PATHS, stop_at_calls
     def is_back(b, s):
         return s.name in dom[b.name]
 
-    stack = [(Path(fn, module), fn.entry, None)]
+    stack = [(Path(fn, module, call_effects), fn.entry, None)]
     while stack:
         path, blk, pred = stack.pop()
         path.blocks.append(blk.name)
@@ -507,6 +523,7 @@ def enumerate_paths(fn, module, loop_bound=1, max_paths=MAX_PATHS, stop_at_calls
                     p2.edge_count[(blk.name, s.name)] = p2.edge_count.get((blk.name, s.name), 0) + 1
                 if cond:
                     p2.conds.append(cond)
+                    p2.cond_pos.append(len(p2.events))
                     p2.known[cond[0]] = 1 if cond[1] else 0
                 stack.append((p2, s, blk))
         elif t.op == "switch":
@@ -530,6 +547,7 @@ def enumerate_paths(fn, module, loop_bound=1, max_paths=MAX_PATHS, stop_at_calls
                     p2.edge_count[(blk.name, s.name)] = p2.edge_count.get((blk.name, s.name), 0) + 1
                 if cond:
                     p2.conds.append(cond)
+                    p2.cond_pos.append(len(p2.events))
                     if cond[1] != "default":
                         p2.known[cond[0]] = cond[1]
                 stack.append((p2, s, blk))
@@ -690,3 +708,39 @@ def arith_subexprs(e):
                             if _is_expr(zz):
                                 for y in arith_subexprs(zz):
                                     yield y
+
+
+def partial_eval(e, env):
+    """Substitute known atoms (env: expr -> unsigned int) and fold constants; returns an expression."""
+    if not _is_expr(e):
+        return e
+    if e in env:
+        bits = expr_bits(e) or 32
+        return ("c", bits, env[e] & mask(bits))
+    k = e[0]
+    if k in ATOM_KINDS or k == "c":
+        return e
+    if k == "cast":
+        a = partial_eval(e[4], env)
+        if a[0] == "c" and e[1] in ("zext", "sext", "trunc"):
+            x = a[2] & mask(e[2]) if e[2] else a[2]
+            if e[1] == "sext" and e[2] and x >> (e[2] - 1):
+                x -= 1 << e[2]
+            return ("c", e[3], x & mask(e[3]))
+        return (k, e[1], e[2], e[3], a)
+    if k == "b":
+        a, b = partial_eval(e[3], env), partial_eval(e[4], env)
+        f = fold_bin(e[1], e[2], a, b) if e[2] else None
+        return f if f is not None else (k, e[1], e[2], a, b)
+    if k == "icmp":
+        a, b = partial_eval(e[2], env), partial_eval(e[3], env)
+        f = fold_icmp(e[1], a, b)
+        return f if f is not None else (k, e[1], a, b)
+    if k == "sel":
+        c = partial_eval(e[1], env)
+        if c[0] == "c":
+            return partial_eval(e[2] if c[2] else e[3], env)
+        return (k, c, partial_eval(e[2], env), partial_eval(e[3], env))
+    if k == "p":
+        return mkptr(partial_eval(e[1], env), e[2], tuple((partial_eval(v, env), s) for v, s in e[3]))
+    return e
